@@ -12,7 +12,14 @@ from concurrent.futures import ThreadPoolExecutor
 names = sys.argv[1:] or sorted(os.path.basename(os.path.dirname(p)) for p in glob.glob('/verif/refactors/*/patch.diff'))
 ids = [c['property_id'] for c in json.load(open('/verif/MANIFEST.json'))['checks']]
 bad = 0
-for name in names:
+
+
+def one(name):
+    global bad
+    lines = []
+
+    def print(*a):
+        lines.append(' '.join(str(x) for x in a))
     tmp = tempfile.mkdtemp(prefix='aslrf-')
     try:
         rp = os.path.join(tmp, 'repo')
@@ -20,7 +27,7 @@ for name in names:
         r = subprocess.run(['patch', '-p1', '-s', '-d', rp, '-i', '/verif/refactors/%s/patch.diff' % name], stdout=subprocess.PIPE, stderr=subprocess.STDOUT, text=True)
         if r.returncode != 0:
             print(name, 'SKIPPED: patch no longer applies')
-            continue
+            return lines
         env = dict(os.environ, ASL_REPO=rp, ASL_NO_EVIDENCE='1', ASL_CACHE=os.path.join(tmp, 'cache'))
 
         def run(i):
@@ -38,4 +45,13 @@ for name in names:
                 print('      ', l[:250])
     finally:
         shutil.rmtree(tmp, ignore_errors=True)
+    return lines
+
+
+import builtins
+with ThreadPoolExecutor(max_workers=int(os.environ.get('REFACTOR_JOBS', '3'))) as pool:
+    for ls in pool.map(one, names):
+        for l in ls:
+            builtins.print(l, flush=True)
+
 sys.exit(1 if bad else 0)
